@@ -5,7 +5,7 @@ package main
 // Case line:   <api> <tree in prefix notation>: <op> ; <op> ; ...
 //   api   g = generic constructors (MonadIOJustGenerics / MonadIONewGenerics, T = int)
 //         i = the interface{} methods (MonadIO.Just / MonadIO.New, T = interface{})
-//   tree  J c | V a | N id | W id | FR t | FL c t b | FC c t b1 b2 | A x c b | O h t | S h t     (see Model/C11.lean)
+//   tree  J c | V a | N id | W id | H id | FR t | FL c t b | FC c t b1 b2 | A x c b | O h t | S h t     (see Model/C11.lean)
 //   ops   b (nothing) | e (Eval) | s (Subscribe with OnNext) | z (Subscribe without OnNext) | y (Cor.YieldFromIO)
 //         o<h> (ObserveOn) | u<h> (SubscribeOn)   h: 0 = nil, 1/2 = unbuffered handlers, 3 = handler with a buffered channel
 // Observation: per op the events logged since the previous op ("-" if none), " | "-separated; e and y prefix "v=<value> ".
@@ -16,13 +16,16 @@ package main
 
 import (
 	"fmt"
+	"io"
 	"math/rand"
+	"net/http"
 	"strconv"
 	"strings"
 	"sync"
 	"time"
 
 	fpgo "github.com/TeaEntityLab/fpGo/v2"
+	"github.com/TeaEntityLab/fpGo/v2/network"
 )
 
 type c11Tree struct {
@@ -59,7 +62,7 @@ func c11Parse(toks []string) (*c11Tree, []string, bool) {
 	t := &c11Tree{kind: k}
 	var ok bool
 	switch k {
-	case "J", "V", "N", "W":
+	case "J", "V", "N", "W", "H":
 		if t.a, ok = num(); !ok {
 			return nil, nil, false
 		}
@@ -99,7 +102,7 @@ func (t *c11Tree) String() string {
 	rec = func(t *c11Tree) {
 		b.WriteString(t.kind)
 		switch t.kind {
-		case "J", "V", "N", "W":
+		case "J", "V", "N", "W", "H":
 			fmt.Fprintf(&b, " %d", t.a)
 		case "FL", "FC":
 			fmt.Fprintf(&b, " %d", t.c)
@@ -116,6 +119,12 @@ func (t *c11Tree) String() string {
 	rec(t)
 	return b.String()
 }
+
+type c11Resp struct{ V int }
+
+type c11RoundTripper func(*http.Request) (*http.Response, error)
+
+func (f c11RoundTripper) RoundTrip(r *http.Request) (*http.Response, error) { return f(r) }
 
 type c11Env struct {
 	mu    sync.Mutex
@@ -190,6 +199,25 @@ func c11Build[T any](e *c11Env, api *c11API[T], t *c11Tree, v int) *fpgo.MonadIO
 	case "W":
 		id := t.a
 		return api.newf(func() T { return api.from(e.effect(id, func(n int) int { return (2*v + id + n) % 1000 })) })
+	case "H":
+		// network/simpleHTTP.go: the API value is built NOW (no request may be sent), the request goes out when the
+		// MonadIO is evaluated — once per evaluation; the stub transport is the user effect
+		id := t.a
+		client := &http.Client{Transport: c11RoundTripper(func(req *http.Request) (*http.Response, error) {
+			val := e.effect(id, func(n int) int { return (7*id + n) % 1000 })
+			return &http.Response{StatusCode: 200, Status: "200 OK", Proto: "HTTP/1.1", ProtoMajor: 1, ProtoMinor: 1,
+				Header: http.Header{"Content-Type": []string{"application/json"}}, Request: req,
+				Body:   io.NopCloser(strings.NewReader(`{"V":` + strconv.Itoa(val) + `}`))}, nil
+		})}
+		sapi := network.NewSimpleAPIWithSimpleHTTP("http://c11.invalid", network.NewSimpleHTTPWithClientAndInterceptors(client))
+		call := network.APIMakeGet[c11Resp](sapi, "/v/{id}")(network.PathParam{"id": id}, &c11Resp{})
+		return api.newf(func() T {
+			r := call.Eval()
+			if r == nil || r.Err != nil || r.TargetObject == nil {
+				return api.from(-1)
+			}
+			return api.from(r.TargetObject.V)
+		})
 	case "FR":
 		return c11Build(e, api, t.kids[0], v).FlatMap(api.just)
 	case "FL", "FC":
@@ -336,7 +364,7 @@ func c11Run(line string) string {
 
 func c11Leaf(k string, a int) *c11Tree { return &c11Tree{kind: k, a: a} }
 
-var c11Leaves = []*c11Tree{c11Leaf("J", 3), c11Leaf("V", 1), c11Leaf("N", 1), c11Leaf("N", 2), c11Leaf("W", 3)}
+var c11Leaves = []*c11Tree{c11Leaf("J", 3), c11Leaf("V", 1), c11Leaf("N", 1), c11Leaf("N", 2), c11Leaf("W", 3), c11Leaf("H", 4)}
 
 // all trees with exactly n nodes over a small alphabet
 func c11Trees(n int, memo map[int][]*c11Tree) []*c11Tree {
@@ -376,12 +404,14 @@ func c11Trees(n int, memo map[int][]*c11Tree) []*c11Tree {
 
 func c11Random(rng *rand.Rand, depth int) *c11Tree {
 	leaf := func() *c11Tree {
-		switch rng.Intn(4) {
-		case 0:
+		switch rng.Intn(9) {
+		case 4:
+			return c11Leaf("H", rng.Intn(9))
+		case 0, 5:
 			return c11Leaf("J", rng.Intn(50))
-		case 1:
+		case 1, 6:
 			return c11Leaf("V", rng.Intn(20))
-		case 2:
+		case 2, 7:
 			return c11Leaf("N", rng.Intn(9))
 		}
 		return c11Leaf("W", rng.Intn(9))
@@ -552,7 +582,7 @@ func c11Gen(tier string, rng *rand.Rand, emit func(string)) map[string]interface
 	}
 	return map[string]interface{}{
 		"exhaustive": false, "directed_law_cases": directed,
-		"exhaustive_scope": fmt.Sprintf("all trees with <= %d nodes over {J3,V1,N1,N2,W3,FR,FL,FC,A,O1,S2} x %d scripts", maxNodes, len(c11Scripts)),
+		"exhaustive_scope": fmt.Sprintf("all trees with <= %d nodes over {J3,V1,N1,N2,W3,H4,FR,FL,FC,A,O1,S2} x %d scripts", maxNodes, len(c11Scripts)),
 		"exhaustive_cases": exhaustive, "random_cases": nRandom, "random_max_depth": depth, "random_depth_hist": depthHist,
 		"emitted": count,
 	}
